@@ -403,3 +403,70 @@ Print Assumptions C03_kgraft_binary_is_graftp.
 Print Assumptions C03_kemb_erase.
 Print Assumptions C03_kprune_nonvacuous.
 (* x-kprune end --------------------------------------------------------------------------------------------------- *)
+
+(* x-kelim begin --------------------------------------------------------------------------------------------------
+   infeasible_elimination for EVERY branching factor K (Pwl/KElim.v: kelim_sub / kelim on KPrune.ktree, following
+   pwl/impl_infeasible_elim.rs:237-320 in the order of its oracle calls: DFS pre-order with the children in ascending
+   label order, the root never classified, a cached Infeasible child skipped with its subtree, a cached Feasible child
+   neither reclassified nor followed by a forward attempt, phase_inh on the rows of the LAST edge = EdgeRegion.label_rows
+   -- one half-space per row --, phase_one / phase_two on the whole path polytope, forward_if_redundant after a freshly
+   classified last sibling iff exactly one child is feasible and K - 1 children are Infeasible -- so all K slots are
+   occupied --, the moved child traversed with the old path rows, no merge at the root, the deferred removal that never
+   removes a last remaining child).
+     KElimEval.kshape K t       : a decision of t has K child slots and a predicate with r rows, 2^r <= K
+     KElimEval.kmarks_kids x q t: no node below t's root carries an Infeasible mark although x lies in its path polytope *)
+From AT Require KElim KElimBin KElimEval KElimExample.
+(* value and definedness *)
+Theorem C03_kelim_preserves : forall o tol K t x, osound o x -> KElimEval.kshape K t -> KElimEval.kmarks_kids x [] t ->
+  KPrune.kev (fst (KElim.kelim o tol K t)) x = KPrune.kev t x.
+Proof. exact KElimEval.kelim_kev. Qed.
+(* the terminal function x is led to *)
+Theorem C03_kelim_terminal : forall o tol K t x, osound o x -> KElimEval.kshape K t -> KElimEval.kmarks_kids x [] t ->
+  KPrune.kterm (fst (KElim.kelim o tol K t)) x = KPrune.kterm t x.
+Proof. exact KElimEval.kelim_kterm. Qed.
+(* the general form, at any node with its path polytope (what the induction carries) *)
+Theorem C03_kelim_sub_terminal : forall o tol K x, osound o x ->
+  forall t, KElimEval.kshape K t -> forall isroot q st k, KElimEval.kmarks_kids x q t -> in_rows q x ->
+  KPrune.kterm (fst (KElim.kelim_sub o tol K isroot q st t k)) x = KPrune.kterm t x.
+Proof. exact KElimEval.kelim_sub_kterm. Qed.
+(* in terms of the inductive tree the runner compares (tag kelim-preserves) *)
+Theorem C03_kelim_eval : forall o tol K t x, osound o x -> KElimEval.kshape K t -> KElimEval.kmarks_kids x [] t ->
+  eval (KPrune.kerase (fst (KElim.kelim o tol K t))) x = eval (KPrune.kerase t) x.
+Proof. exact KElimEval.kelim_eval. Qed.
+(* a stored node stays a stored node; its state is the one it was given or a feasible one *)
+Theorem C03_kelim_sub_shape : forall o tol K t isroot q st k, KElim.k_exists t = true ->
+  KElim.k_exists (fst (KElim.kelim_sub o tol K isroot q st t k)) = true /\
+  (KElim.k_state (fst (KElim.kelim_sub o tol K isroot q st t k)) = st \/
+   is_feas (KElim.k_state (fst (KElim.kelim_sub o tol K isroot q st t k))) = true).
+Proof. exact KElimEval.kelim_sub_shape. Qed.
+(* K = 2: the K-ary model on the embedding of a binary tree IS the binary model Elim.v, result and both call counters *)
+Theorem C03_kelim_binary_is_elim : forall o tol t, cbin t ->
+  KElim.kelim o tol 2 (KPrune.kemb t) = (KPrune.kemb (fst (elim o tol t)), snd (elim o tol t)).
+Proof. exact KElimBin.kelim_binary. Qed.
+Theorem C03_kelim_sub_binary_is_elim_sub : forall o tol t isroot q st k, cbin t ->
+  KElim.kelim_sub o tol 2 isroot q st (KPrune.kemb t) k =
+  (KPrune.kemb (fst (elim_sub o tol isroot q st t k)), snd (elim_sub o tol isroot q st t k)).
+Proof. exact KElimBin.kelim_sub_binary. Qed.
+Theorem C03_kshape_kemb : forall t, cbin t -> KElimEval.kshape 2 (KPrune.kemb t).
+Proof. exact KElimEval.kshape_kemb. Qed.
+(* non-vacuity, K = 4 over R^1 (root x <= -2, below both edges the two-row predicate x <= 1, -x <= 1; exact certified
+   oracle): below edge 0 the child of label 0 is PRUNED and the decision stays, below edge 1 three children are
+   infeasible and the decision is FORWARDED (its child keeps its arena index); the hypotheses hold for every x in R^1 *)
+Example C03_kelim_nonvacuous :
+  (forall x, length x = 1%nat -> osound (KPruneExample.kx_oracle 1) x) /\ KElimEval.kshape 4 KElimExample.kex_t /\
+  (forall x, KElimEval.kmarks_kids x [] KElimExample.kex_t) /\
+  KElim.ktree_eqb (fst (KElim.kelim (KPruneExample.kx_oracle 1) 0 4 KElimExample.kex_t)) KElimExample.kex_r = true /\
+  (forall x, length x = 1%nat ->
+     KPrune.kev (fst (KElim.kelim (KPruneExample.kx_oracle 1) 0 4 KElimExample.kex_t)) x = KPrune.kev KElimExample.kex_t x /\
+     KPrune.kterm (fst (KElim.kelim (KPruneExample.kx_oracle 1) 0 4 KElimExample.kex_t)) x = KPrune.kterm KElimExample.kex_t x).
+Proof. exact KElimExample.kex_c03. Qed.
+Print Assumptions C03_kelim_preserves.
+Print Assumptions C03_kelim_terminal.
+Print Assumptions C03_kelim_sub_terminal.
+Print Assumptions C03_kelim_eval.
+Print Assumptions C03_kelim_sub_shape.
+Print Assumptions C03_kelim_binary_is_elim.
+Print Assumptions C03_kelim_sub_binary_is_elim_sub.
+Print Assumptions C03_kshape_kemb.
+Print Assumptions C03_kelim_nonvacuous.
+(* x-kelim end ---------------------------------------------------------------------------------------------------- *)
